@@ -5,6 +5,7 @@ go 1.23
 require (
 	github.com/goccy/go-yaml v1.11.2
 	github.com/golang-jwt/jwt/v4 v4.0.0
+	github.com/kjx98/crc16 v0.0.0-20190915014410-d407ba22e1b5
 	github.com/nats-io/nats.go v1.31.0
 	github.com/simpleiot/simpleiot v0.0.0
 	google.golang.org/protobuf v1.27.1
@@ -32,7 +33,6 @@ require (
 	github.com/gorilla/websocket v1.4.1 // indirect
 	github.com/influxdata/influxdb-client-go/v2 v2.10.0 // indirect
 	github.com/influxdata/line-protocol v0.0.0-20210311194329-9aa0e372d097 // indirect
-	github.com/kjx98/crc16 v0.0.0-20190915014410-d407ba22e1b5 // indirect
 	github.com/klauspost/compress v1.17.2 // indirect
 	github.com/koding/websocketproxy v0.0.0-20181220232114-7ed82d81a28c // indirect
 	github.com/mattn/go-colorable v0.1.13 // indirect
